@@ -227,7 +227,7 @@ class _ReadProxy:
 
 class SimFS:
     def __init__(self, sim, roots, chunk=65536, copy_bufsize=65536, permute_listing=False,
-                 proxy_reads=False, yield_stat=True, buffer_size=8192):
+                 proxy_reads=False, yield_stat=True, buffer_size=8192, devices=()):
         self.sim = sim
         self.roots = [os.path.realpath(r).rstrip("/") for r in roots]
         self.chunk = max(1, int(chunk))
@@ -236,6 +236,9 @@ class SimFS:
         self.permute_listing = permute_listing
         self.proxy_reads = proxy_reads
         self.yield_stat = yield_stat
+        # relative directory prefixes that are mount points of OTHER file systems: rename / replace / link across a
+        # device boundary fails with EXDEV as it does between /tmp (tmpfs) and a home directory
+        self.devices = tuple(d.strip("/") for d in devices)
         self.counts = {}
         self.write_set = set()      # rel paths mutated (any mutating op) - cleared by callers
         self._saved = None
@@ -258,6 +261,12 @@ class SimFS:
             if s.startswith(r + "/"):
                 return s[len(r) + 1:]
         return None
+
+    def _device(self, rel):
+        for d in self.devices:
+            if rel == d or rel.startswith(d + "/"):
+                return d
+        return ""
 
     def _mine(self, path):
         if self.sim.current() is None:
@@ -304,6 +313,11 @@ class SimFS:
             if rel is None and rel2 is None:
                 return real(path, *a, **kw)
             fs._step(name, rel if rel is not None else rel2, rel2 if two else None, mutating=mutating)
+            if two and name != "symlink" and fs.devices and rel is not None and rel2 is not None \
+                    and fs._device(rel) != fs._device(rel2):
+                fs.counts["exdev_raised"] = fs.counts.get("exdev_raised", 0) + 1
+                fs.sim.record(name, rel, rel2, "OSError:EXDEV")
+                raise OSError(_errno.EXDEV, os.strerror(_errno.EXDEV), os.fspath(path), None, os.fspath(a[0]))
             if two and rel2 is not None:
                 fs.write_set.add(rel2)
             r = real(path, *a, **kw)
